@@ -491,6 +491,16 @@ impl<'a> Explorable for Model<'a> {
         self.check(s);
     }
 
+    fn case_of(&self, s: &State, a: Option<&Op>) -> Value {
+        let mut history = s.history.clone();
+        if let Some(a) = a {
+            history.push(a.clone());
+        }
+        let mut c = self.case(&history);
+        c["watch_label"] = json!(format!("{}:{}", self.cfg.set, a.map(|a| format!("{a:?}")).unwrap_or_else(|| "observe".into()).split('(').next().unwrap_or("")));
+        c
+    }
+
     fn report_panic(&self, s: &State, a: Option<&Op>, location: &str, message: &str) {
         let mut history = s.history.clone();
         if let Some(a) = a {
